@@ -5,6 +5,7 @@ import (
 	"flag"
 	"fmt"
 	"os"
+	"runtime/pprof"
 	"sort"
 	"strings"
 )
@@ -15,6 +16,12 @@ func main() {
 		os.Exit(2)
 	}
 	initWorkDir()
+	if pf := os.Getenv("GOVC_CPUPROFILE"); pf != "" {
+		if f, err := os.Create(pf); err == nil {
+			pprof.StartCPUProfile(f)
+			defer pprof.StopCPUProfile()
+		}
+	}
 	code := 2
 	func() {
 		defer cleanupWorkDir()
@@ -31,6 +38,7 @@ func main() {
 			fmt.Fprintln(os.Stderr, "unknown command", os.Args[1])
 		}
 	}()
+	pprof.StopCPUProfile()
 	os.Exit(code)
 }
 
